@@ -553,11 +553,9 @@ func runCases(in string, sum *tl.Summary) {
 		case u.ok && u.err != "":
 			viol("Unpack returned a value of the wrong shape: "+u.err, tl.M{})
 		case c.Verdict == "reject" && u.ok:
-			if pend := pendingFinding(c, args, mem, u); pend != "" {
-				sum.Count("pending-" + pend)
-				if sum.Counts["pending-"+pend] == 1 {
-					sum.Notes = append(sum.Notes, fmt.Sprintf("PENDING-FINDING %s: (%s) %s case: Unpack accepts %x, the specification rejects", pend, s, c.Ph, mem))
-				}
+			if pend := recognised(c, args, mem, u); pend != "" && !strict[pend] {
+				notePending(sum, pend, fmt.Sprintf("(%s) %s case: Unpack accepts %x, the specification rejects", s, c.Ph, mem),
+					tl.M{"type": s, "case": c.Ph, "note": c.Note, "bytes": fmt.Sprintf("%x", mem), "got": plain(u.vals)})
 			} else {
 				viol(fmt.Sprintf("Unpack accepts (%v) what the specification rejects", plain(u.vals)), tl.M{"got": plain(u.vals)})
 			}
@@ -590,9 +588,29 @@ func runCases(in string, sum *tl.Summary) {
 	sum.Rule = "every TLC-enumerated case (argument types x sample value / mutated encoding / word string) executed on abi.Arguments Pack and Unpack; distinct = distinct (type list, case kind, verdict, outcome)"
 }
 
-// pendingFinding recognises the fingerprints of the pending findings (spec/codec/NOTES.md).
-func pendingFinding(c caseLine, args abi.Arguments, mem []byte, u unpacked) string {
-	// TODO-KNOWN-FINDING C51-F1: for T[k] with dynamic T, toGoType reads the offset word with
+// strict lists the recognised deviations that are NOT admitted in this run (-strict).
+var strict = map[string]bool{}
+
+// notePending records a match of a recognised deviation in Summary.Extra["pending"].
+func notePending(sum *tl.Summary, id, desc string, sample any) {
+	p, _ := sum.Extra["pending"].(map[string]any)
+	if p == nil {
+		p = map[string]any{}
+		sum.Extra["pending"] = p
+	}
+	e, _ := p[id].(map[string]any)
+	if e == nil {
+		e = map[string]any{"count": 0, "desc": desc, "sample": sample}
+		p[id] = e
+	}
+	e["count"] = e["count"].(int) + 1
+}
+
+// recognised returns the id of the recognised deviation (spec/codec/NOTES.md) that explains why
+// Unpack accepted an input the specification rejects, or "".  Both are being repaired in /repo; until
+// the repairs land the check admits exactly these fingerprints (unless run with -strict).
+func recognised(c caseLine, args abi.Arguments, mem []byte, u unpacked) string {
+	// C51-F1: for T[k] with dynamic T, toGoType reads the offset word with
 	// binary.BigEndian.Uint64(word[24:]) and ignores its upper 24 bytes.  Fingerprint: some
 	// argument contains such an array, and zeroing the upper 24 bytes of one word of the input
 	// yields an input that decodes to the same value.
@@ -621,7 +639,7 @@ func pendingFinding(c caseLine, args abi.Arguments, mem []byte, u unpacked) stri
 			}
 		}
 	}
-	// TODO-KNOWN-FINDING C51-F2: ReadInteger range-checks only the widths 8/16/32/64; uintN/intN of
+	// C51-F2: ReadInteger range-checks only the widths 8/16/32/64; uintN/intN of
 	// any other width below 256 accept words outside their range.  Fingerprint: an argument
 	// contains such a type and the accepted value re-encodes to exactly the input prefix.
 	if odd {
@@ -870,7 +888,13 @@ func main() {
 	trace := flag.String("trace", "trace.ndjson", "output trace")
 	out := flag.String("out", "summary.json", "summary output")
 	n := flag.Int("n", 100, "random type/value rounds")
+	strictFlag := flag.String("strict", "", "comma separated recognised deviations that are not admitted")
 	flag.Parse()
+	for _, id := range strings.Split(*strictFlag, ",") {
+		if id != "" {
+			strict[id] = true
+		}
+	}
 	seed := int64(tl.EnvInt("VERIF_SEED", 1))
 	sum := tl.NewSummary("c51", *mode, seed)
 	switch *mode {
